@@ -56,6 +56,9 @@ def check_transitions_split(out: Outcome, case, tag):
         c = {**case, 'n_parts': [n_parts]}
         interval = np.linspace(0, T - 1, n_parts + 1, dtype=int)
         empty_traj_part = any(b <= a for a, b in pairwise(interval))
+        if (T + n_parts) % 2:
+            _ = tr.trajectory.displacements  # read-only queries before the split must not matter
+            _ = tr.diff_trajectory.displacements
         try:
             parts = tr.split(n_parts)
         except ValueError as e:
@@ -167,7 +170,10 @@ def check_traj_split(out: Outcome, rng):
     pos = traj.positions.copy()
     n_parts = int(rng.integers(1, max(2, T)))
     out.evaluations += 1
-    case = {'traj_T': T, 'traj_A': A, 'n_parts': n_parts, 'coords': coords.tolist() if T * A <= 12 else 'omitted', 'lattice': lat.tolist()}
+    queried = bool(rng.integers(2))
+    if queried:
+        _ = traj.cumulative_displacements  # a read-only query made before the split (the object is then stored as displacements)
+    case = {'traj_T': T, 'traj_A': A, 'n_parts': n_parts, 'displacement_query_before_split': queried, 'coords': coords.tolist() if T * A <= 12 else 'omitted', 'lattice': lat.tolist()}
     interval = np.linspace(0, T - 1, n_parts + 1, dtype=int)
     if any(b <= a for a, b in pairwise(interval)):
         out.count('traj-empty-part-skipped')
